@@ -94,6 +94,7 @@ Definition op_ok (h : state) (o : op) : Prop :=
   | OStage _ c _ => In c (s_cfgs h)
   | ORemCfgObj _ cascade => cascade = true
   | ORemCfgName _ cascade => cascade = true
+  | ORoundTrip => MULTI_DEVICE_SUPPORTED_VERSION <= s_ir h
   | _ => True
   end.
 Fixpoint ops_ok (h : state) (ops : list op) : Prop :=
@@ -594,24 +595,39 @@ Proof.
   intros sp [S1 [S2 S3]]. split; [|split]; simpl; auto. rewrite vm_apply_rank by exact Hr. exact S2.
 Qed.
 
-Lemma clone_nodes_ok cfgs h : forall nodes m next nodes' names' next',
-  rank_pres m -> nodes_ok cfgs nodes ->
-  clone_nodes h m next nodes = Some (nodes', names', next') -> nodes_ok cfgs nodes'.
+Definition pend_rank (pend : pending) : Prop := Forall (fun e => rank_pres (snd e)) pend.
+
+Lemma flush_rank d : forall pend m pend' m',
+  pend_rank pend -> rank_pres m -> flush d pend m = (pend', m') -> pend_rank pend' /\ rank_pres m'.
 Proof.
-  induction nodes as [|[n nd] r IH]; intros m next nodes' names' next' Hr Hn C; simpl in C.
+  induction pend as [|[d' b] r IH]; intros m pend' m' Hp Hm F; simpl in F.
+  - inversion F; subst. split; assumption.
+  - inversion Hp as [|? ? Hb Hr]; subst. simpl in Hb. destruct (d <=? d')%nat.
+    + eapply IH; [exact Hr | | exact F]. apply rank_pres_app; assumption.
+    + inversion F; subst. split; assumption.
+Qed.
+
+Lemma clone_nodes_ok cfgs h : forall nodes pend m next nodes' names' next',
+  pend_rank pend -> rank_pres m -> nodes_ok cfgs nodes ->
+  clone_nodes h pend m next nodes = Some (nodes', names', next') -> nodes_ok cfgs nodes'.
+Proof.
+  induction nodes as [|[n nd] r IH]; intros pend m next nodes' names' next' Hp Hr Hn C; simpl in C.
   - inversion C; subst. constructor.
-  - destruct (clone_inputs m (n_in nd)) as [ins'|] eqn:Ci; [|discriminate].
+  - destruct (flush (depth h (node_scope h n)) pend m) as [pend1 m1] eqn:Fl.
+    destruct (flush_rank _ _ _ _ _ Hp Hr Fl) as [Hp1 Hr1].
+    destruct (clone_inputs m1 (n_in nd)) as [ins'|] eqn:Ci; [|discriminate].
     set (outs' := fresh_from next (n_out nd)) in *.
-    set (m' := rev (combine (n_out nd) outs') ++ m) in *.
-    destruct (clone_nodes h m' (next + Z.of_nat (length (n_out nd))) r) as [[[r' nm'] nx']|] eqn:Cr; [|discriminate].
+    set (own := rev (combine (n_out nd) outs')) in *.
+    destruct (clone_nodes h ((depth h (node_scope h n), own) :: pend1) m1
+                (next + Z.of_nat (length (n_out nd))) r) as [[[r' nm'] nx']|] eqn:Cr; [|discriminate].
     inversion C; subst; clear C. inversion Hn as [|? ? Hnd Hr']; subst.
-    assert (Hr2 : rank_pres m').
-    { apply rank_pres_app; [apply rank_pres_rev; apply fresh_from_rank | exact Hr]. }
-    constructor; [|eapply IH; eassumption].
+    assert (Hown : rank_pres own) by (apply rank_pres_rev; apply fresh_from_rank).
+    assert (Hr2 : rank_pres (own ++ m1)) by (apply rank_pres_app; assumption).
+    constructor; [|eapply IH; [| exact Hr1 | exact Hr' | exact Cr]; constructor; assumption].
     simpl. unfold node_ok. simpl. eapply remap_dcs_ok; [exact Hr2 | | exact Hnd].
     intros w Hw. simpl in Hw.
     assert (Hlen : length (n_out nd) = length outs') by (symmetry; apply fresh_from_length).
-    destruct (vm_apply_outs m (n_out nd) outs' w Hlen) as [Hin Hout]. fold m' in Hin, Hout.
+    destruct (vm_apply_outs m1 (n_out nd) outs' w Hlen) as [Hin Hout]. fold own in Hin, Hout.
     apply io_In. simpl. destruct (existsb (v_eqb w) (n_out nd)) eqn:Ex.
     + right. apply Hin. apply existsb_v_In. exact Ex.
     + assert (Hnot : ~ In w (n_out nd)).
@@ -623,8 +639,8 @@ Qed.
 Lemma clone_inv h : DevInv h -> DevInv (fst (clone h)).
 Proof.
   intros [Hc Hn]. unfold clone.
-  destruct (clone_nodes h _ _ (s_nodes h)) as [[[nodes' names'] next']|] eqn:C; [|split; assumption].
-  simpl. split; [exact Hc|]. simpl. eapply clone_nodes_ok; [| exact Hn | exact C].
+  destruct (clone_nodes h _ _ _ (s_nodes h)) as [[[nodes' names'] next']|] eqn:C; [|split; assumption].
+  simpl. split; [exact Hc|]. simpl. eapply clone_nodes_ok; [constructor | | exact Hn | exact C].
   apply rank_pres_rev. apply fresh_from_rank.
 Qed.
 
@@ -650,68 +666,69 @@ Proof.
     specialize (Hf H). assert (str_eqb (c_name c) (c_name c) = true) by (apply str_eqb_eq; reflexivity). congruence.
 Qed.
 
-Lemma rt_domain_find h v :
-  rt_domain h = true -> In v (live h) ->
-  find (fun x => str_eqb (name_of h x) (name_of h v)) (live h) = Some v.
+(* in the modelled domain every input/output of a node resolves, through the scope stack of the node's
+   graph, to itself *)
+Lemma rt_domain_resolve h n nd v :
+  rt_domain h = true -> In (n, nd) (s_nodes h) -> In v (io nd) ->
+  resolve h (node_scope h n) (name_of h v) = Some v.
 Proof.
-  intros D HIn. unfold rt_domain in D. rewrite forallb_forall in D.
-  destruct (find _ (live h)) as [x|] eqn:E.
-  - apply find_some in E. destruct E as [Hx Heq]. specialize (D x Hx). apply andb_true_iff in D.
-    destruct D as [_ D]. rewrite forallb_forall in D. specialize (D v HIn). rewrite Heq in D. simpl in D.
-    apply v_eqb_eq in D. congruence.
-  - pose proof (find_none _ _ E v HIn) as Hf. simpl in Hf.
-    assert (str_eqb (name_of h v) (name_of h v) = true) by (apply str_eqb_eq; reflexivity). congruence.
+  intros D Hn Hv. unfold rt_domain in D. apply andb_true_iff in D. destruct D as [_ D].
+  rewrite forallb_forall in D. specialize (D (n, nd) Hn). simpl in D.
+  rewrite forallb_forall in D. specialize (D v Hv).
+  destruct (resolve h (node_scope h n) (name_of h v)) as [w|]; [|discriminate].
+  apply v_eqb_eq in D. congruence.
 Qed.
 
-Lemma rt_specs_id h (P : valobj -> Prop) ndev specs acc :
-  rt_domain h = true -> (forall v, P v -> In v (live h)) -> Forall (spec_ok P ndev) specs ->
-  rt_specs h specs acc = (specs, acc).
+Lemma rt_specs_id h sc (P : valobj -> Prop) ndev specs acc :
+  (forall v, P v -> resolve h sc (name_of h v) = Some v) -> Forall (spec_ok P ndev) specs ->
+  rt_specs h sc specs acc = (specs, acc).
 Proof.
-  intros D HP F. induction specs as [|sp r IH]; simpl; [reflexivity|].
-  inversion F as [|? ? [Hsp _] Hr]; subst. rewrite (rt_domain_find h (sp_val sp) D (HP _ Hsp)).
+  intros HP F. induction specs as [|sp r IH]; simpl; [reflexivity|].
+  inversion F as [|? ? [Hsp _] Hr]; subst. rewrite (HP _ Hsp).
   rewrite (IH Hr). destruct sp; reflexivity.
 Qed.
 
-Lemma rt_dcs_id h (P : valobj -> Prop) dcs acc :
-  rt_domain h = true -> cfgs_ok (s_cfgs h) -> (forall v, P v -> In v (live h)) ->
-  Forall (dc_ok (s_cfgs h) P) dcs -> rt_dcs h dcs acc = (dcs, acc).
+Lemma rt_dcs_id h sc (P : valobj -> Prop) dcs acc :
+  cfgs_ok (s_cfgs h) -> (forall v, P v -> resolve h sc (name_of h v) = Some v) ->
+  Forall (dc_ok (s_cfgs h) P) dcs -> rt_dcs h (s_cfgs h) sc dcs acc = (dcs, acc).
 Proof.
-  intros D [Hd _] HP F. induction dcs as [|dc r IH]; simpl; [reflexivity|].
+  intros [Hd _] HP F. induction dcs as [|dc r IH]; simpl; [reflexivity|].
   inversion F as [|? ? [Hc Hs] Hr]; subst. rewrite (find_last_registered _ _ Hd Hc).
-  rewrite (rt_specs_id h P _ _ acc D HP Hs). rewrite (IH Hr). destruct dc; reflexivity.
+  rewrite (rt_specs_id h sc P _ _ acc HP Hs). rewrite (IH Hr). destruct dc; reflexivity.
 Qed.
 
+Lemma rt_keep_new_ir h n : MULTI_DEVICE_SUPPORTED_VERSION <= s_ir h -> rt_keep h n = true.
+Proof. intros H. unfold rt_keep. apply orb_true_iff. left. lia. Qed.
+
 Lemma rt_nodes_id h nodes acc :
+  MULTI_DEVICE_SUPPORTED_VERSION <= s_ir h ->
   rt_domain h = true -> cfgs_ok (s_cfgs h) -> nodes_ok (s_cfgs h) nodes -> incl nodes (s_nodes h) ->
-  rt_nodes h nodes acc = (nodes, acc).
+  rt_nodes h (s_cfgs h) nodes acc = (nodes, acc).
 Proof.
-  intros D Hc Hn Hincl. induction nodes as [|[n nd] r IH]; simpl; [reflexivity|].
-  inversion Hn as [|? ? Hnd Hr]; subst.
-  rewrite (rt_dcs_id h (fun v => In v (io nd)) _ acc D Hc); [| |exact Hnd].
+  intros Hir D Hc Hn Hincl. induction nodes as [|[n nd] r IH]; simpl; [reflexivity|].
+  inversion Hn as [|? ? Hnd Hr]; subst. rewrite (rt_keep_new_ir h n Hir).
+  rewrite (rt_dcs_id h (node_scope h n) (fun v => In v (io nd)) _ acc Hc); [| |exact Hnd].
   - rewrite IH; [|exact Hr|]. + destruct nd; reflexivity. + intros x Hx. apply Hincl. right. exact Hx.
-  - intros v Hv. unfold live. apply in_app_iff. right. apply in_flat_map. exists (n, nd). split; [|exact Hv].
-    apply Hincl. left. reflexivity.
+  - intros v Hv. eapply rt_domain_resolve; [exact D | | exact Hv]. apply Hincl. left. reflexivity.
 Qed.
 
 Lemma roundtrip_identity h :
   DevInv h -> rt_domain h = true -> MULTI_DEVICE_SUPPORTED_VERSION <= s_ir h -> ser_ok h = true ->
   roundtrip h = (h, Ok tt).
 Proof.
-  intros [Hc Hn] D Hir Hs. unfold roundtrip. rewrite D. simpl.
-  destruct (s_ir h <? MULTI_DEVICE_SUPPORTED_VERSION) eqn:E; [lia|]. rewrite Hs. simpl.
-  rewrite (rt_nodes_id h (s_nodes h) _ D Hc Hn (incl_refl _)). destruct h; reflexivity.
+  intros [Hc Hn] D Hir Hs. unfold roundtrip. rewrite D, Hs. simpl.
+  destruct (s_ir h <? MULTI_DEVICE_SUPPORTED_VERSION) eqn:E; [lia|].
+  rewrite (rt_nodes_id h (s_nodes h) _ Hir D Hc Hn (incl_refl _)). destruct h; reflexivity.
 Qed.
 
-Lemma roundtrip_inv h : DevInv h -> DevInv (fst (roundtrip h)).
+Lemma roundtrip_inv h :
+  MULTI_DEVICE_SUPPORTED_VERSION <= s_ir h -> DevInv h -> DevInv (fst (roundtrip h)).
 Proof.
-  intros Hinv. unfold roundtrip. destruct (rt_domain h) eqn:D; simpl; [|exact Hinv].
-  destruct (s_ir h <? MULTI_DEVICE_SUPPORTED_VERSION) eqn:E.
-  - simpl. split; simpl.
-    + split; constructor.
-    + unfold nodes_ok. rewrite Forall_map. apply Forall_forall. intros p _. constructor.
-  - destruct (ser_ok h) eqn:S; simpl; [|exact Hinv].
-    destruct Hinv as [Hc Hn].
-    rewrite (rt_nodes_id h (s_nodes h) _ D Hc Hn (incl_refl _)). simpl. split; assumption.
+  intros Hir Hinv. unfold roundtrip. destruct (rt_domain h) eqn:D; simpl; [|exact Hinv].
+  destruct (ser_ok h) eqn:S; simpl; [|exact Hinv].
+  destruct (s_ir h <? MULTI_DEVICE_SUPPORTED_VERSION) eqn:E; [lia|].
+  destruct Hinv as [Hc Hn].
+  rewrite (rt_nodes_id h (s_nodes h) _ Hir D Hc Hn (incl_refl _)). simpl. split; assumption.
 Qed.
 
 (* ------------------------------------------------------------------ the step lemma and the history theorem *)
@@ -729,7 +746,7 @@ Proof.
   - apply on_node_inv; [|exact Hinv]. intros nd nd'. apply resize_inputs_nd_ok.
   - apply remove_node_inv. exact Hinv.
   - apply clone_inv. exact Hinv.
-  - apply roundtrip_inv. exact Hinv.
+  - apply roundtrip_inv; assumption.
 Qed.
 
 Lemma inv_reachable ops : forall h, DevInv h -> ops_ok h ops -> DevInv (run h ops).
